@@ -2047,8 +2047,9 @@ MHD_str_pct_decode_in_place_lenient_ (char *str,
             if (NULL != broken_encoding)
               *broken_encoding = true;
             str[w++] = chr; /* Copy "as is" */
-            str[w++] = d1;
-            str[w++] = d2;
+            /* The next two chars are processed again as they may start
+               a valid sequence (same as MHD_str_pct_decode_lenient_n_()) */
+            r -= 2;
             continue;
           }
           out =
